@@ -177,6 +177,10 @@ V('c13-filter-adds', 'C13', 'C13.R4',
           "                        if result_class:\n                            if inst.classname.lower() not in resultclasses:\n                                continue\n                            rtn_instpaths.add(inst.path)\n"),
   'filter-result_class')
 
+V('c08-tomof-drops-translatable', 'C08', 'C08.R6',
+  (OBJ, "        if self.translatable:\n            mof_flavors.append('Translatable')\n\n", ""),
+  'translatable')
+
 # ---- C04 ------------------------------------------------------------------
 OPSF = 'pywbem/_cim_operations.py'
 MOCKF = 'pywbem_mock/_wbemconnection_mock.py'
